@@ -66,6 +66,12 @@ class EdgeMonitor(Monitor):
                         self.r.violation(explain(self.p, 'lifecycle/fell-back-to-ready-while-its-attempt-is-live', scopes),
                                          f'job {k} moved {ps} -> Ready although its attempt {self.prev_attempt[k]} on {a["instance_name"]} ({inst["state"]}) has not ended',
                                          {'job': list(k), 'attempt': self.prev_attempt[k]})
+                if self.check_cancel and s == 'Cancelled' and j['always_run']:
+                    # "always-run children run regardless": nothing may end an always-run job as Cancelled (the canceller's
+                    # ready / creating / running sweeps exempt always-run jobs; workers never report that state)
+                    self.r.violation(explain(self.p, 'always-run-job-cancelled', scopes), f'always-run job {k} moved {ps} -> Cancelled', {'job': list(k), 'edge': [ps, s]})
+                if self.check_cancel and j['always_run'] and s in TERMINAL:
+                    ctx.count('always_run_jobs_reaching_a_terminal_state')
                 if self.check_cancel and s in ('Creating', 'Running') and ps not in ('Creating', 'Running'):
                     if self.prev_marked.get(k) and not j['always_run']:
                         self.r.violation(explain(self.p, 'cancelled-job-started/entered-' + s.lower(), scopes),
@@ -75,7 +81,7 @@ class EdgeMonitor(Monitor):
             self.prev_marked[k] = v.marked_cancelled(j) and v.committed(j)
 
 
-def standard_run(ctx, make_monitors, n_hist=(40, 1200), n_ops=(80, 140), cfg=None, **kw):
+def standard_run(ctx, make_monitors, n_hist=(100, 1200), n_ops=(80, 140), cfg=None, **kw):
     p = Patterns()
     mons = [p] + list(make_monitors(p))
     c = {'weights': dict(WEIGHTS_RUN)}
